@@ -8,6 +8,7 @@ import (
 	"crypto/x509"
 	"encoding/base64"
 	"fmt"
+	"strings"
 	"testing"
 
 	"github.com/hashicorp/nodeenrollment"
@@ -43,6 +44,7 @@ type caseDesc struct {
 	RetiredNamedBy []string `json:"records_naming_key_p_as_their_previous_key,omitempty"`
 	SigShape       string   `json:"nonce_signature_shape,omitempty"`
 	Expect         string   `json:"model_says"`
+	Afterwards     string   `json:"then_a_second_validly_signed_request,omitempty"`
 	Got            string   `json:"got,omitempty"`
 }
 
@@ -331,6 +333,45 @@ func TestProp_Generate(t *testing.T) {
 		}
 		if err == nil {
 			checkResponse(t, w, req, resp, stateStruct, d)
+		}
+		// "a node record CURRENTLY in storage": right after a verified request the
+		// operator removes the node (or the same process serves another storage), and
+		// the node - still holding its key - asks again with a valid signature
+		if err == nil && !d.Skip {
+			d.Afterwards = rapid.SampledFrom([]string{"", "records-removed", "records-removed", "served-from-another-storage"}).Draw(t, "afterwards")
+			if d.Afterwards == "" {
+				return
+			}
+			store, opts := nodeenrollment.Storage(w.Store), w.O()
+			switch d.Afterwards {
+			case "records-removed":
+				for _, l := range lookup {
+					if rerr := w.Inner.Remove(w.Ctx, &types.NodeInformation{Id: actors[l].KeyID}); rerr != nil {
+						t.Fatalf("harness: remove %s: %v", l, rerr)
+					}
+				}
+			case "served-from-another-storage":
+				w2 := vkit.NewWorld(vkit.WorldConfig{Backend: backend, StorageWrapper: d.Wrapper, NodeIdLoader: d.NodeIdLoader})
+				defer w2.Close()
+				if w2.NodeID != nil {
+					w2.NodeID.Native, w2.NodeID.EmptyOnMiss = w.NodeID.Native, w.NodeID.EmptyOnMiss
+				}
+				store, opts = w2.Store, w2.O()
+			}
+			req2 := proto.Clone(req).(*types.GenerateServerCertificatesRequest)
+			if d.SigShape == "exact" && rapid.Bool().Draw(t, "freshNonce") {
+				req2.Nonce = make([]byte, nodeenrollment.NonceSize)
+				_, _ = rand.Read(req2.Nonce)
+				req2.NonceSignature = sign(d.NonceSigner, req2.Nonce)
+				d.Afterwards += " (fresh nonce)"
+			} else {
+				d.Afterwards += " (same request again)"
+			}
+			resp2, err2 := nodetls.GenerateServerCertificates(w.Ctx, store, req2, opts...)
+			rec.Case("second-request-after-"+strings.Fields(d.Afterwards)[0], fmt.Sprintf("%+v", d), true, func() any { return d })
+			if err2 == nil || resp2 != nil {
+				vkit.Violate(t, prop, "C05/forged-accepted/no-record-in-storage-any-more", fmt.Sprintf("a request was verified and answered; then %s, and a second request with a valid signature by the same key was still answered with certificates although no record of that key is in the storage served", d.Afterwards), d)
+			}
 		}
 	})
 }
